@@ -711,6 +711,10 @@ class BasicLexer(AbstractBasicLexer):
                 t.end_pos = line_ctr.char_pos
                 if t.type in self.callback:
                     t = self.callback[t.type](t)
+                    if isinstance(t, Token):
+                        # The callback may have changed the type (a keyword found inside a regexp terminal):
+                        # whether the token is dropped depends on the terminal it is reported as.
+                        ignored = t.type in self.ignore_types
                 if not ignored:
                     if not isinstance(t, Token):
                         raise LexError("Callbacks must return a token (returned %r)" % t)
